@@ -484,7 +484,8 @@ pub fn run(which: &'static str, tier: &str, seed: u64, out: &str) {
             let mut pairs_done = 0u64;
             // two interruptions before the completed search (C06), for the small searches
             if which == "C06" && (t <= 150 || (thorough && t <= 1500)) {
-                let step = if thorough { 1 } else { (t / 25).max(1) };
+                // every pair for the smallest searches; a grid of ~120 x 120 deadlines (thorough) / 25 x 25 (quick) otherwise
+                let step = if thorough { (t / 120).max(1) } else { (t / 25).max(1) };
                 let mut pairs: Vec<(u64, u64)> = Vec::new();
                 let mut n1 = 0;
                 while n1 < t {
